@@ -11,6 +11,7 @@ import (
 	"net"
 	"strings"
 	"sync"
+	"time"
 
 	"github.com/miekg/dns"
 )
@@ -31,10 +32,65 @@ var vkFwdDeviations = []string{"plain", "lcq", "ucq", "qr0", "op", "rd0", "ra0",
 	// what the answer carries beyond the asked records
 	"rrsig", "nsec", "optall", "optnoask", "big", "strayopt"}
 
+// vkFwdMisbehaviours: what an upstream may do instead of answering (C11: silence, slowness, truncation,
+// garbage, answers to the wrong question). "+t" forms behave only on UDP and answer properly over TCP.
+var vkFwdMisbehaviours = []string{"servfail", "refused", "wrongq", "wrongid", "garbage", "noq", "twice", "tc", "tcboth", "slow", "silent"}
+
 func (u *vkFwdUp) handle(w dns.ResponseWriter, req *dns.Msg) {
 	u.mu.Lock()
 	u.queries++
 	u.mu.Unlock()
+	_, overTCP := w.RemoteAddr().(*net.TCPAddr)
+	switch strings.ToLower(strings.SplitN(req.Question[0].Name, ".", 2)[0]) {
+	case "silent":
+		return
+	case "slow":
+		time.Sleep(700 * time.Millisecond)
+	case "servfail", "refused":
+		m := new(dns.Msg)
+		m.SetRcode(req, dns.RcodeServerFailure)
+		if strings.HasPrefix(strings.ToLower(req.Question[0].Name), "refused") {
+			m.Rcode = dns.RcodeRefused
+		}
+		_ = w.WriteMsg(m)
+		return
+	case "wrongq":
+		m := new(dns.Msg)
+		m.SetReply(req)
+		m.Question[0].Name = "other." + req.Question[0].Name
+		m.Answer = []dns.RR{&dns.A{Hdr: dns.RR_Header{Name: m.Question[0].Name, Rrtype: dns.TypeA, Class: dns.ClassINET, Ttl: 300}, A: net.IPv4(192, 0, 2, 66)}}
+		_ = w.WriteMsg(m)
+		return
+	case "wrongid":
+		m := new(dns.Msg)
+		m.SetReply(req)
+		m.Id = req.Id + 1
+		m.Answer = []dns.RR{&dns.A{Hdr: dns.RR_Header{Name: req.Question[0].Name, Rrtype: dns.TypeA, Class: dns.ClassINET, Ttl: 300}, A: net.IPv4(192, 0, 2, 66)}}
+		_ = w.WriteMsg(m)
+		return
+	case "garbage":
+		_, _ = w.Write([]byte{byte(req.Id >> 8), byte(req.Id), 0x81, 0x80, 0xff, 0xff, 0xff})
+		return
+	case "noq":
+		m := new(dns.Msg)
+		m.SetReply(req)
+		m.Question = nil
+		_ = w.WriteMsg(m)
+		return
+	case "tc", "tcboth":
+		if !overTCP || strings.HasPrefix(strings.ToLower(req.Question[0].Name), "tcboth") {
+			m := new(dns.Msg)
+			m.SetReply(req)
+			m.Truncated = true
+			_ = w.WriteMsg(m)
+			return
+		}
+	case "twice":
+		m := new(dns.Msg)
+		m.SetReply(req)
+		m.Answer = []dns.RR{&dns.A{Hdr: dns.RR_Header{Name: req.Question[0].Name, Rrtype: dns.TypeA, Class: dns.ClassINET, Ttl: 300}, A: net.IPv4(192, 0, 2, 81)}}
+		_ = w.WriteMsg(m)
+	}
 	m := new(dns.Msg)
 	m.SetReply(req)
 	m.RecursionAvailable = true
